@@ -1,11 +1,9 @@
 package world
 
 import (
-	"go.sia.tech/core/consensus"
 )
 
 type Renter struct{}
-type Adversary struct{}
 
 
 
@@ -22,5 +20,4 @@ func (w *World) restartNode(n *Node) {}
 
 func (w *World) finalChecks() {}
 
-func (w *World) extrasApplied(n *Node, e *blockEntry, au consensus.ApplyUpdate, first bool) {
-}
+
